@@ -69,7 +69,7 @@ package leanhelixterm
 // (ghost function, not code): the term belongs to the height the state holds.
 //@ func NewLeanHelixTerm
 //@   props C12 C13 C17
-//@   requires [A-NONNIL.the-configured-spi-objects-are-present] config != nil && config.KeyManager != nil && config.BlockUtils != nil && config.Membership != nil && state != nil && state.Contexts != nil && electionTrigger != nil
+//@   requires [A-NONNIL.the-configured-spi-objects-are-present] config != nil && config.KeyManager != nil && config.BlockUtils != nil && config.Membership != nil && config.Communication != nil && state != nil && state.Contexts != nil && electionTrigger != nil
 //@   requires [A-KM-SIGN] SignsAs(config.KeyManager, config.Membership.MyMemberId())
 //@   requires [O13.earlier-commits-are-below-the-new-height] lastCommitHeight < state.height
 //@   modifies @TICSTART, interfaces.Config.Storage, ghost:ncommitted, ghost:lastVC
